@@ -1161,6 +1161,17 @@ Definition chunks_at (w : world) (p : addr) (c : achunks) : Prop :=
   exists rc text hdr d, heap w p = Some (CItem rc (NChunked text hdr d (c_cap c) (c_chunks c))) /\
                         len (c_chunks c) <= c_cap c.
 
+(* the assertions of cbor_bytestring_add_chunk on the chunk read it without changing anything *)
+Lemma chunk_assert_inv text q w u w' : chunk_assert text q w = Ret u w' ->
+  heap w' = heap w /\ next w' = next w /\ nreq w' = nreq w.
+Proof.
+  unfold chunk_assert. destruct text.
+  - intros H. apply ret_inv in H. destruct H as [_ ->]. auto.
+  - intros H. apply bind_inv in H. destruct H as (c & w1 & E1 & H). apply rd_inv in E1. destruct E1 as (_ & H1 & N1 & R1).
+    destruct (snd c) as [| | |[|] ? ?|[|] ? ? ? ?| | |]; try discriminate H.
+    apply ret_inv in H. destruct H as [_ ->]. auto.
+Qed.
+
 Section ChunkInv.
 Variable refuse : N -> N -> bool.
 
@@ -1174,8 +1185,11 @@ Proof.
   unfold add_chunk in H. apply bind_inv in H. destruct H as ([rc0 n0] & w1 & E1 & H).
   apply rd_inv in E1. cbn [fst snd] in *. destruct E1 as (E1 & H1 & N1 & R1).
   rewrite E in E1. injection E1 as <- <-.
+  apply bind_inv in H. destruct H as (u0 & w0 & E0 & H).
+  apply chunk_assert_inv in E0. destruct E0 as (H0 & N0 & R0).
   apply bind_inv in H. destruct H as (u2 & w2 & E2 & H).
   apply touch_any_inv in E2. destruct E2 as (H2 & N2 & R2).
+  rewrite H0 in H2. rewrite N0 in N2. rewrite R0 in R2.
   apply bind_inv in H. destruct H as (st & w3 & E3 & H).
   unfold acadd. cbn [c_cap c_chunks].
   assert (Tail : forall arr' cap' w4,
